@@ -164,3 +164,16 @@ pub fn __vec_concat2(a: Vec<u8>, b: Vec<u8>) -> (r: Vec<u8>) ensures r@ == a@ + 
 pub fn __bytes_eq(a: &[u8], b: &[u8]) -> (r: bool) ensures r == (a@ == b@) { a == b }
 
 pub open spec fn strs_view(v: Seq<&str>) -> Seq<Seq<char>> { Seq::new(v.len(), |i: int| v[i]@) }
+
+// ---- Cram glob -> regex translation (glob_cram.rs)
+/// `S.chars().collect::<Vec<_>>()` (rule R40c)
+#[verifier::external_body]
+pub fn __chars_vec(s: &str) -> (r: Vec<char>) ensures r@ == s@ { s.chars().collect() }
+/// regex::escape: what it does to a text is the regex crate's business (uninterpreted); scrut hands it ONE character at a time
+pub uninterp spec fn rx_escape(s: Seq<char>) -> Seq<char>;
+#[verifier::external_body]
+pub fn __regex_escape(s: &str) -> (r: String) ensures r@ == rx_escape(s@) { unimplemented!() }
+/// anyhow::Context::context on a Result: same value, the error gets a message
+#[verifier::external_body]
+pub fn __anyhow_context<T>(r: anyhow::Result<T>, _c: &str) -> (o: anyhow::Result<T>)
+    ensures (o is Ok) == (r is Ok), o is Ok ==> o->Ok_0 == r->Ok_0 { unimplemented!() }
